@@ -129,6 +129,12 @@ SIG_KEYCASE = "key-case:ini-applies-toml-warns"
 SIG_TOMLBOOL = "toml-bool-on-string-option:capitalised"
 # what str.splitlines() breaks at besides \n and \r (a text file does not): VT FF FS GS RS NEL LS PS
 LINE_BOUNDARIES = ["\x0b", "\x0c", "\x1c", "\x1d", "\x1e", "\x85", "\u2028", "\u2029"]
+SIG_CONFIG_KEY = "config-key-in-file:neither-applied-nor-warned"
+SIG_UNKNOWN_BADVALUE = "unknown-key:aborts:unevaluable-ini-value"
+SIG_TOML_AS_INI = "toml-file-read-as-ini:quoted-value-differs"
+SIG_ML_QUOTES = "ini-multiline-list:quoted-items-keep-quotes"
+SIG_TOML_ARRAY = "toml-array-value:comma-misread"
+SIG_POSITIONAL = "positional-equal-to-option-string:file-value-dropped"
 SIG_MAXAGE = "intersphinx-cache-max-age:not-checked-at-parse-time"
 MAXAGE_GOOD = ["1d", "3h", "0s", "59m", "2w", "1w"]
 MAXAGE_BAD = ["1x", "x", "d", "1", "1.5d", "-1d", "1 d", "1dd", "99999999999999999999w", "é"]
@@ -820,7 +826,7 @@ def _uncovered(msg: str) -> None:
         UNCOVERED.append(msg)
 
 
-def live_table() -> List[Dict[str, Any]]:
+def live_table(special: bool = False) -> List[Dict[str, Any]]:
     """the live option table in the model's terms.  An action the model has no kind for is NOT an infrastructure problem: it
     is recorded as a broken correspondence (run() puts it into ctx.broken) and carried as the nearest kind, so that every
     stream still runs and the direct oracles (stream_every_option_string first of all) look for a failing input."""
@@ -829,7 +835,14 @@ def live_table() -> List[Dict[str, Any]]:
     table = []
     for a in p._actions:
         keys = p.get_possible_config_keys(a)
-        if not keys or isinstance(a, (argparse._HelpAction, argparse._VersionAction)) or getattr(a, "is_config_file_arg", False):
+        is_special = isinstance(a, (argparse._HelpAction, argparse._VersionAction)) or getattr(a, "is_config_file_arg", False)
+        if not keys or (is_special and not special):
+            continue
+        if is_special:
+            # --help / --version / --config: outside the value streams, but ValidatorParser counts their keys as known and
+            # configargparse turns them into `--key=value` arguments: carried as `store` so that the model's table is the code's
+            table.append({"flags": list(a.option_strings), "kind": "store", "dest": a.dest, "default": a.default, "type": None, "choices": None,
+                          "key": keys[0], "keys": list(keys), "const": None, "action": a, "special": True})
             continue
         if a.nargs not in (None, 0):
             _uncovered(f"option table: {a.option_strings} has nargs={a.nargs!r}, outside the model's assumptions")
@@ -905,6 +918,8 @@ def file_list(fmt_file: str, vs: List[str], style: int) -> str:
         return "[" + ", ".join(toml_basic(v) for v in vs) + "]"
     if style == 0 or not all(v and v == v.strip() and "\n" not in v and v[0] not in "[\"'#;" for v in vs) or len(vs) < 2:
         return "[" + ", ".join(py_quote("1d" if i % 2 else "1s", v) for i, v in enumerate(vs)) + "]"
+    if style == 2:
+        return "\n    " + "\n    ".join(py_quote("1d", v) for v in vs)     # one item per line, each line quoted
     return "\n    " + "\n    ".join(vs)     # one item per line (split_ml_text_to_list)
 
 
@@ -1000,12 +1015,14 @@ def eff_check(tok: str, o: Dict[str, Any], ns_val: Any) -> bool:
 
 def stream_options(ctx: Ctx, sc: Scratch) -> None:
     table = live_table()
+    mtable = live_table(special=True)       # the table ValidatorParser / configargparse work with (help, version, config included)
     ctx.extra["options_in_live_table"] = len(table)
+    ctx.extra["options_in_merge_table"] = len(mtable)
     # the hypotheses of the merge theorems (FlagsDisjoint, KeysDisjoint, NoSepFlag) evaluated by the model on the live
     # table, and the model's config keys of every option against configargparse's
-    treq = f"config table {len(table)} " + " ".join(f"{o['kind']} {len(o['flags'])} " + " ".join(enc(f) for f in o["flags"]) for o in table)
+    treq = f"config table {len(mtable)} " + " ".join(f"{o['kind']} {len(o['flags'])} " + " ".join(enc(f) for f in o["flags"]) for o in mtable)
     timpl = "flags:1 keys:1 nosep:1 | " + " | ".join(
-        " ".join(enc(k) for k in o["keys"]) for o in table)
+        " ".join(enc(k) for k in o["keys"]) for o in mtable)
     compare(ctx, "get_possible_config_keys~possibleKeys + table hypotheses", [treq], [timpl], [{"table": [o["flags"] for o in table]}])
     by_flag = {o["flags"][0]: o for o in table}
     reqs: List[str] = []
@@ -1022,7 +1039,7 @@ def stream_options(ctx: Ctx, sc: Scratch) -> None:
                 if not (isinstance(v, str) or (isinstance(v, list) and all(isinstance(x, str) for x in v))):
                     ctx.disagree("config parser output type", label, "str or list of str", f"{k} = {v!r}")
                     return
-        reqs.append(merge_request(table, items, cli))
+        reqs.append(merge_request(mtable, items, cli))
         impl_parts.append(r)
         pay.append(label)
 
@@ -1087,7 +1104,8 @@ def stream_options(ctx: Ctx, sc: Scratch) -> None:
                     if len(vs) < 2:
                         continue
                     sc.clear()
-                    text = f"{header}\n{o['key']} = {file_list(fname, vs, rep % 2)}\n"
+                    style = rep % 3 if rep >= 2 else rep % 2
+                    text = f"{header}\n{o['key']} = {file_list(fname, vs, style)}\n"
                     sc.write(fname, text)
                     rf = run_ns([])
                     record([fname], [], rf, {"option": long, "values": vs, "file": fname, "case": "append-file"})
@@ -1098,7 +1116,7 @@ def stream_options(ctx: Ctx, sc: Scratch) -> None:
                     ctx.case(f"append {long} {fname} {enc('|'.join(vs))}", True, None)
                     ctx.count("option:append>=2")
                     if outcome_key(rf) != outcome_key(rc):
-                        sig = classify_option_failure(fname, fmt, text, vs, f"append-order:{fmt}")
+                        sig = classify_option_failure(fname, fmt, text, vs, SIG_ML_QUOTES if (style == 2 and fmt == "ini" and "\n    \"" in text) else f"append-order:{fmt}")
                         ctx.fail(sig, {"option": long, "values": vs, "file": fname, "mode": "eq", "text": text, "cli": cli},
                                  f"{long}: {fname} {text!r} -> {short(rf)}{diff_opts(rf, rc)}; command line {cli} -> {short(rc)}")
                     elif rf["kind"] == "ok":
@@ -1162,6 +1180,13 @@ def stream_options(ctx: Ctx, sc: Scratch) -> None:
                 ctx.fail("unknown-key:not-warned-once", ukin, f"{fname}: unknown key {uk!r}: warnings {r1['warnings']}")
             elif outcome_key(r1) != outcome_key(r0):
                 ctx.fail("unknown-key:applied", ukin, f"{fname}: unknown key {uk!r} changed the options{diff_opts(r1, r0)}")
+    # -- the key of the config-file option: known to the validator, becomes a late --config=… argument (hunt/C20/1)
+    for fname, header, fmt in FILES:
+        sc.clear()
+        sc.write(fname, f"{header}\nconfig = {toml_basic('extra.ini') if fmt == 'toml' else 'extra.ini'}\nproject-name = {toml_basic('x') if fmt == 'toml' else 'x'}\n")
+        r = run_ns([])
+        record([fname], [], r, {"file": fname, "case": "config-key"})
+        ctx.case(f"merge config key {fname}", True, None)
     # -- several files at once and a command line (model: reversed(config_streams), insertion before the first option)
     stores = [t for t in table if t["kind"] == "store" and not t["choices"] and t["type"] is None and t["flags"][0] not in CLASSES]
     appends = [t for t in table if t["kind"] == "append" and t["flags"][0] in ("--intersphinx", "--html-subject")]
@@ -1212,7 +1237,7 @@ def stream_options(ctx: Ctx, sc: Scratch) -> None:
     outs = model(ctx, reqs)
     impls = []
     for m, r in zip(outs, impl_parts):
-        impls.append(impl_line(m, r, table, ctx))
+        impls.append(impl_line(m, r, mtable, ctx))
     compare(ctx, "configargparse merge~mergeFiles/effective", reqs, impls, pay)
     # -- abbreviations / `--` (direct oracle only; outside the model)
     for fname, header, fmt in FILES:
@@ -1414,6 +1439,9 @@ def impl_line(model_out: str, r: Dict[str, Any], table: List[Dict[str, Any]], ct
         return head + " | " + sect("eff", m_eff)
     toks = []
     for tok, o in zip(m_eff, table):
+        if o.get("special"):
+            toks.append(tok)        # help / version / config: no namespace value to compare
+            continue
         toks.append(tok if eff_check(tok, o, r["ns"].get(o["dest"])) else f"MISMATCH({o['flags'][0]}={r['ns'].get(o['dest'])!r})")
     return head + " | " + sect("eff", toks)
 
@@ -1790,9 +1818,7 @@ def stream_corpus(ctx: Ctx, sc: Scratch) -> None:
     if (field(ra, "projectname"), ra["warnings"]) != (field(rb, "projectname"), rb["warnings"]):
         ctx.fail(SIG_KEYCASE, {"mode": "keycase", "key": "Project-Name"},
                  f"key 'Project-Name': setup.cfg -> project-name={field(ra, 'projectname')!r} warnings={ra['warnings']}; pyproject.toml -> {field(rb, 'projectname')!r} warnings={rb['warnings']}")
-    # (6) `config = …` inside a config file (the config-file option is outside the property, DESIGN 4.5)
-    r = read("setup.cfg", "[tool:pydoctor]\nconfig = other.ini\nproject-name = x\n")
-    pin("config = other.ini inside a file", (field(r, "projectname"), r["warnings"]), ("x", []), "known key, ignored: the files are opened before the items are read")
+    # (6) `config = …` inside a config file: judged by the wording "for every option" it is a finding (stream_hunter_shapes, H1)
     # (7) help / version in a file (options that terminate the process are outside the property)
     for k in ("help", "version"):
         r = read("setup.cfg", f"[tool:pydoctor]\n{k} = false\n")
@@ -1868,6 +1894,111 @@ def stream_corpus(ctx: Ctx, sc: Scratch) -> None:
         if outcome_key(a) != outcome_key(b):
             ctx.fail("file-ne-cli:store:toml", {"mode": "eq", "file": "pyproject.toml", "text": "project-name = \"Demo\"  # comment / html-output = 'build\\new-docs'", "cli": ["--project-name=Demo"]},
                      f"{what}: differs from the command line{diff_opts(a, b)}")
+
+
+def stream_hunter_shapes(ctx: Ctx, sc: Scratch) -> None:
+    """shapes a hunter found the unchanged tree violating the property on (hunt/C20/1..4 and its side remarks): generated here,
+    judged by the direct oracle; each has its own signature"""
+    # (H1) the key of the config-file option inside a config file: must load the named file (as --config does) or be warned about
+    from pydoctor.options import get_parser
+    p = get_parser()
+    for a in p._actions:
+        if not getattr(a, "is_config_file_arg", False):
+            continue
+        for key in p.get_possible_config_keys(a):
+            for fname, header, fmt in FILES:
+                for target, exists in (("extra.ini", True), ("does-not-exist.ini", False)):
+                    sc.clear()
+                    if exists:
+                        sc.write("extra.ini", "[pydoctor]\nproject-name = FromExtra\n")
+                    text = f"{header}\n{toml_key(key) if fmt == 'toml' else key} = {toml_basic(target) if fmt == 'toml' else target}\n"
+                    sc.write(fname, text)
+                    rf = sc.run([])
+                    sc.clear()
+                    rc = sc.run([f"--config={target}"]) if exists else None
+                    if os.path.exists("extra.ini"):
+                        os.remove("extra.ini")
+                    ctx.case(f"hunt config key {fname} {key} {target}", True, None)
+                    ctx.count("hunter:config-key-in-file")
+                    warned = [f"No such config option: {key!r}"] == rf["warnings"]
+                    same = rc is not None and outcome_key(rf) == outcome_key(rc)
+                    refused = rf["kind"] == "exit"
+                    if not (warned or same or refused):
+                        ctx.fail(SIG_CONFIG_KEY, {"mode": "configkey", "file": fname, "text": text, "target": target},
+                                 f"{fname} {text!r}: the key is not warned about and {target} is not loaded (project-name {getattr(rf.get('options'), 'projectname', None)!r}"
+                                 + (f", --config={target} gives {getattr(rc.get('options'), 'projectname', None)!r})" if rc else ", the file does not even exist)"))
+    # (H2) an unknown key whose value is bracketed / quoted text that does not evaluate (INI files): warned about, not an abort
+    for fname, header, fmt in FILES[1:]:
+        for val in ("[a, b]", "'C:\\x'", "[1, 2", "[draft] x [v2]", "\"a\n    b\"", "['x'"):
+            for before in (True, False):
+                ok_line = "project-name = Demo\n"
+                uk_line = f"future-option = {val}\n"
+                text = header + "\n" + (uk_line + ok_line if before else ok_line + uk_line)
+                sc.clear()
+                sc.write(fname, text)
+                r = sc.run([])
+                ctx.case(f"hunt unknown key unevaluable {fname} {val} {before}", True, None)
+                ctx.count("hunter:unknown-key-unevaluable-value")
+                if r["kind"] != "ok" or r["warnings"] != ["No such config option: 'future-option'"] or r["options"].projectname != "Demo":
+                    ctx.fail(SIG_UNKNOWN_BADVALUE, {"mode": "unknown", "file": fname, "key": "future-option", "text": text, "text_without": header + "\n" + ok_line},
+                             f"{fname} {text!r}: unknown key with a value that does not evaluate -> {short(r)}, warnings {r['warnings']}")
+    # (H3) a pyproject.toml the toml package refuses (valid TOML 1.0: a mixed array in another table) is re-read as INI
+    prefix = "[tool.other]\nmixed = [1, \"a\"]\n"
+    for s in strings_upto(1 if ctx.quick else 2) + EXTRA_SINGLES + ["C:\\temp\\new", "https://example.org"]:
+        for form, qd in writings("pyproject.toml", s):
+            for comment in ("", "   # home"):
+                text = f"{prefix}[tool.pydoctor]\nproject-name = {qd}{comment}\n"
+                sc.clear()
+                sc.write("pyproject.toml", text)
+                r = sc.run([])
+                got = r["options"].projectname if r["kind"] == "ok" else None
+                ctx.case(f"hunt toml1.0 {form} {enc(s)} {bool(comment)}", nontrivial_str(s), None)
+                ctx.count("hunter:pyproject-refused-by-toml-package")
+                if got != s and r["kind"] != "exit":       # (a reported error would be fine: the file is not silently misread)
+                    ctx.fail(SIG_TOML_AS_INI, {"mode": "tomlasini", "file": "pyproject.toml", "text": text, "s": s},
+                             f"pyproject.toml {text!r}: project-name read back as {got!r}, written {s!r} (the toml package refuses the file, the INI parser reads it)")
+    # (H4) one item per line, each line quoted
+    table = {o["flags"][0]: o for o in live_table()}
+    for long in ("--intersphinx", "--html-subject"):
+        o = table[long]
+        for items in (["https://a.example/objects.inv", "https://b.example/objects.inv"], ["pkg.mod ", "#pkg.other"], ["it's", "x"], ["a", "b\tc"]):
+            for q in ("1d", "1s"):
+                for fname, header in (("setup.cfg", "[tool:pydoctor]"), ("pydoctor.ini", "[pydoctor]")):
+                    text = f"{header}\n{o['key']} =\n" + "".join(f"    {py_quote(q, i)}\n" for i in items)
+                    cli = [f"{long}={i}" for i in items]
+                    sc.clear()
+                    sc.write(fname, text)
+                    rf = sc.run([])
+                    sc.clear()
+                    rc = sc.run(cli)
+                    ctx.case(f"hunt quoted lines {fname} {long} {q} {enc('|'.join(items))}", True, None)
+                    ctx.count("hunter:one-per-line-quoted-items")
+                    if outcome_key(rf) != outcome_key(rc):
+                        ctx.fail(SIG_ML_QUOTES, {"mode": "eq", "file": fname, "text": text, "cli": cli},
+                                 f"{fname} {text!r} -> {short(rf)}{diff_opts(rf, rc)}; command line {cli}")
+    # side remarks: commas inside TOML array strings (toml package), a source path equal to an option string
+    for items in ([","], ["a", ","], [", "], ["a,b"], ["],["]):
+        text = "[tool.pydoctor]\nintersphinx = [" + ", ".join(toml_basic(i) for i in items) + "]\n"
+        sc.clear()
+        sc.write("pyproject.toml", text)
+        r = sc.run([])
+        got = list(r["options"].intersphinx) if r["kind"] == "ok" else None
+        ctx.case("hunt toml array " + text, True, None)
+        ctx.count("hunter:toml-array-comma")
+        if got != items:
+            ctx.fail(SIG_TOML_ARRAY, {"mode": "tomlarray", "file": "pyproject.toml", "text": text, "items": items}, f"pyproject.toml {text!r}: intersphinx read back as {got!r}")
+    os.makedirs("--verbose", exist_ok=True)
+    sc.clear()
+    sc.write("pydoctor.ini", "[pydoctor]\nverbose = 1\n")
+    rb = sc.run(["--", "--verbose"])
+    sc.clear()
+    rc = sc.run(["-v", "--", "--verbose"])
+    ctx.case("hunt positional equal to an option string", True, None)
+    ctx.count("hunter:positional-equal-to-option-string")
+    if outcome_key(rb) != outcome_key(rc):
+        ctx.fail(SIG_POSITIONAL, {"mode": "positional", "file": "pydoctor.ini", "text": "[pydoctor]\nverbose = 1\n", "cli": ["--", "--verbose"]},
+                 f"verbose = 1 in pydoctor.ini + source path `--verbose` after `--`: the file's value is dropped{diff_opts(rb, rc)}")
+    sc.clear()
 
 
 def stream_every_option_string(ctx: Ctx, sc: Scratch) -> None:
@@ -1963,6 +2094,7 @@ def run(ctx: Ctx) -> None:
         sc = Scratch()
         try:
             stream_every_option_string(ctx, sc)   # needs nothing from the model: every key the real parser accepts
+            stream_hunter_shapes(ctx, sc)
             stream_corpus(ctx, sc)            # recorded findings and seeded shapes first, whatever the seed
         finally:
             sc.close()
